@@ -29,6 +29,7 @@ func runC15(c *Ctx) {
 	c.rule("U9", "the reporting side (the names listed, the name a validation error gives) replaces the configuration key separator in the prefix too, like the session's key replacer", 2)
 	c.rule("U10", "a validation error records the enclosing field in front of the path gathered so far, for the structure path and for the variable-name path alike (the error travels from the innermost structure outwards)", 2)
 	c.rule("U11", "a set of flags bound to one key yields a value some flag was explicitly given whenever there is one: the value of a flag nobody set is returned only where the list of explicit values was found empty", 1)
+	c.rule("U12", "binding a flag to a variable recognises the prefix in the name it is given in the spelling loading looks up (key separator replaced), not only as the caller wrote the prefix", 1)
 	c.rule("U8", "ValidateEmbedded calls Validate() on every field of struct kind that implements Validator, whatever the field holds, and returns its error", 1)
 	c.rule("U6", "names with an empty prefix: prefix and separator are joined only where the prefix was found non-empty", 2)
 	c.rule("U7", "structure keys are linked to flag keys without prefix removal", 1)
@@ -417,6 +418,58 @@ func runC15(c *Ctx) {
 		c.Extra["recorded_paths"] = n
 	}
 
+	// ---- U12 ----------------------------------------------------------------
+	// The names reported (and looked up) for prefix `my.app` start with MY_APP_: a flag bound by such a name must be linked
+	// to the structure key, i.e. the prefix must be recognised in that spelling and removed.
+	if gk := c.fn(cfgPkg, "generateEnvVarConfigKeys"); gk != nil {
+		c.FuncsSeen[fname(gk)] = true
+		pi := paramIndexByName(gk, "envVarPrefix")
+		found := false
+		allInstrs(gk, func(in ssa.Instruction) {
+			cl, ok := in.(*ssa.Call)
+			if !ok || (calleeFull(&cl.Call) != "strings.HasPrefix" && calleeFull(&cl.Call) != "strings.CutPrefix") || pi < 0 {
+				return
+			}
+			// the prefix operand went through a replacer key separator → env separator, and comes from the prefix parameter
+			var walk func(v ssa.Value, depth int, replaced bool) bool
+			walk = func(v ssa.Value, depth int, replaced bool) bool {
+				if depth > 8 {
+					return false
+				}
+				v = resolveValue(v)
+				switch x := v.(type) {
+				case *ssa.Parameter:
+					return replaced && x == gk.Params[pi]
+				case *ssa.BinOp:
+					return x.Op == token.ADD && (walk(x.X, depth+1, replaced) || walk(x.Y, depth+1, replaced))
+				case *ssa.Call:
+					switch n := calleeFull(&x.Call); {
+					case n == "(*strings.Replacer).Replace":
+						if nr, ok := x.Call.Args[0].(*ssa.Call); ok && calleeFull(&nr.Call) == "strings.NewReplacer" {
+							els := variadicElems(nr.Call.Args[0])
+							if len(els) == 2 {
+								from, ok1 := constString(els[0])
+								to, ok2 := constString(els[1])
+								if ok1 && ok2 && to == envSep && from != "" && from != to {
+									return walk(x.Call.Args[1], depth+1, true)
+								}
+							}
+						}
+						return walk(x.Call.Args[1], depth+1, replaced)
+					case strings.HasPrefix(n, "strings."):
+						return len(x.Call.Args) > 0 && walk(x.Call.Args[0], depth+1, replaced)
+					}
+				}
+				return false
+			}
+			if walk(cl.Call.Args[1], 0, false) {
+				found = true
+			}
+		})
+		c.check(found, "U12", fname(gk)+"/prefix-as-looked-up", c.pos(gk.Pos()), "the prefix is also recognised with the key separator replaced",
+			"the prefix is only recognised in the name of the variable as the caller wrote it: with the prefix \"my.app\" the variable is MY_APP_NAME (looked up, and reported, that way); a flag bound to MY_APP_NAME keeps the prefix in its key, is never linked to the structure key, and an explicitly set flag is ignored")
+	}
+
 	// ---- U11 ----------------------------------------------------------------
 	// "in decreasing priority, an explicitly set command-line flag bound to it, …": for a set of flags (BindFlagsToEnv) the
 	// value viper is given is one of the values explicitly set — the current value of whichever flag comes last, set or
@@ -667,6 +720,19 @@ func c15CaseOf(v ssa.Value, depth int) string {
 			return "upper"
 		case "strings.TrimPrefix", "strings.TrimSuffix", "strings.TrimSpace", "strings.Trim":
 			return c15CaseOf(x.Call.Args[0], depth+1)
+		case "(*strings.Replacer).Replace":
+			// a replacer whose strings carry no letters (`.` → `_`) leaves the case as it is
+			if nr, ok := x.Call.Args[0].(*ssa.Call); ok && calleeFull(&nr.Call) == "strings.NewReplacer" {
+				letters := false
+				for _, e := range variadicElems(nr.Call.Args[0]) {
+					if ks, isK := constString(e); !isK || strings.ToLower(ks) != strings.ToUpper(ks) {
+						letters = true
+					}
+				}
+				if !letters {
+					return c15CaseOf(x.Call.Args[1], depth+1)
+				}
+			}
 		}
 	case *ssa.BinOp:
 		if x.Op == token.ADD {
